@@ -2,7 +2,7 @@
    by Print Assumptions. DB and Tok are arbitrary types; migrations are arbitrary step functions. *)
 From Coq Require Import List NArith Bool Arith Sorted.
 From Coq Require Import Lia ZifyN ZifyNat ZifyBool.
-From V Require Import C18.Model C18.Proofs C18.Proofs_BT C18.Proofs_Resume.
+From V Require Import C18.Model C18.Proofs C18.Proofs_BT C18.Proofs_Resume C18.Proofs_SDL.
 Import ListNotations.
 
 (* A migration is recorded as applied only after its Migrate returned (nil, nil): in the event log
@@ -154,6 +154,20 @@ Theorem C18_resume_same_db_any_committed :
 Proof. exact bt_resume_any_committed_lemma. Qed.
 Print Assumptions C18_resume_same_db_any_committed.
 
+(* statedifflength: a backfill resumed from ANY checkpoint [ck] on a database whose first [p]
+   blocks were pruned in the meantime (optional pruning migration enabled between two starts; the
+   checkpoint may lie below, at or above the new floor) completes, leaves every retained block with
+   StateDiffLength = StateDiff.Length() and touches nothing else — because it starts at
+   max(checkpoint, oldest retained). Hypothesis: retained blocks below the checkpoint are filled. *)
+Theorem C18_statedifflength_resume_after_prune : forall (p : nat) (bs : list sblock) (ck : nat),
+  bs <> [] ->
+  (forall i b, i < ck - p -> nth_error bs i = Some b -> filled b = true) ->
+  exists db', sdl_migrate ck (repeat None p ++ map Some bs) = Some db' /\
+    sdl_done db' = true /\
+    map (option_map s_len) db' = map (option_map s_len) (repeat None p ++ map Some bs).
+Proof. exact sdl_resume_after_prune_lemma. Qed.
+Print Assumptions C18_statedifflength_resume_after_prune.
+
 (* ---------------------------------------------------------------------------------------- *)
 (* Non-vacuity and the witnesses that the hypotheses are needed (all by computation).        *)
 (* ---------------------------------------------------------------------------------------- *)
@@ -298,3 +312,11 @@ Proof.
   eexists. eexists. split. vm_compute. reflexivity. split. vm_compute. reflexivity.
   vm_compute. repeat split; try reflexivity. discriminate.
 Qed.
+
+(* statedifflength: checkpoint 1 saved, then blocks 0..2 pruned: the backfill completes; starting
+   at the stale checkpoint instead of max(checkpoint, oldest retained) would hit a pruned block *)
+Definition sdb5 : sdb := repeat None 3 ++ [Some {| s_len := 4; s_sdl := 0 |}; Some {| s_len := 2; s_sdl := 0 |}].
+Example statedifflength_resume_instance :
+  sdl_migrate 1 sdb5 = Some (repeat None 3 ++ [Some {| s_len := 4; s_sdl := 4 |}; Some {| s_len := 2; s_sdl := 2 |}]) /\
+  backfill_from sdb5 1 = None.
+Proof. vm_compute. split; reflexivity. Qed.
